@@ -148,7 +148,7 @@ func vndConcretize(x int) int { return x }
 
 // vndSettle gives goroutines started by the code under test time to finish (the symbolic executor runs a goroutine
 // to completion at its spawn point, so there is nothing to wait for).
-func vndSettle() { time.Sleep(30 * time.Millisecond) }
+func vndSettle() { time.Sleep(300 * time.Millisecond) }
 
 // vndAdvanceTime lets time pass beyond every pending timeout (symbolically: every time.After channel is ready).
 func vndAdvanceTime() { time.Sleep(150 * time.Millisecond) }
@@ -267,6 +267,7 @@ func (x *Exec) vnd(name string, args []Value) Value {
 			ch.Ready = c.True()
 		}
 		x.timeAdvanced++
+		x.clockNS += 150_000_000
 		return nil
 	case "vndLoopStepCRC16":
 		return x.loopStepCRC16(args)
